@@ -1,44 +1,130 @@
 /-
   C05 — numeric values decode to the right number; NaN/infinity preserved.
-  Property theorems only; helper lemmas are in Proofs/Numeric.lean.
+  Property theorems only; helper lemmas are in Proofs/Numeric.lean and Proofs/NumericValue.lean.
 
-  What "the right number" means here: the model carries the exact value ±mant·10000^exp of the
-  decimal text that the repaired `computeNumeric` hands to strconv.ParseFloat (documented to return
-  the nearest float64).  The theorems say this exact value is the stored numeric's value.  The last
-  step — rounding to float64 — is not expressible in Lean (Float is opaque to the kernel): it is
-  checked on the implementation only, by the harness's math/big oracle (bit equality for ≤ 12
-  significant digits and |exp| ≤ 5, ≤ 2 ulp otherwise; observed 0 ulp everywhere after fix 09).
+  What the code does and what is proved about it:
+   1. `DecodeNumeric` classifies the header word, reads sign, weight and the base-10000 digits, and builds the decimal
+      TEXT `[-]dddd…e<4·(weight−k+1)>` (the model builds it byte for byte: `Model.numericText`).
+      `C05_exact` / `C05_text`: read by the Spec's own reader of such texts (`Spec.readDecimal`, written without reference
+      to the code), that text denotes EXACTLY the stored numeric's value ±Σ dᵢ·10000^(k−1−i)·10^(4·(w−k+1)); and
+      `C05_positional` / `C05_rational`: that decimal is PostgreSQL's positional value Σ dᵢ·10000^(w−i) (over the
+      naturals, scaled by a power of ten, and over ℚ).
+   2. The text is handed to `strconv.ParseFloat`, whose result is returned.  ParseFloat is a PARAMETER `pf` of the model;
+      its documented contract (`Spec.ParseFloatOK`: the result is the double nearest to the denoted decimal, ties to even,
+      ±Inf beyond the finite range) is the one assumption.  `C05_value`: under that contract the Go value returned is
+      bit for bit the float64 nearest to the numeric's exact value — for EVERY digit count, hence in particular
+      "exactly the nearest double for values of up to 12 significant digits" — and NaN / +Infinity / −Infinity come out as
+      NaN / +Inf / −Inf.  The contract is checked against the real strconv on every generated case: the driver instantiates
+      `pf` with the executable reference `Spec.parseFloatRef` (`Txt.f64OfRat`, the project's correctly rounding soft-float)
+      and the harness compares `math.Float64bits` of pgread's result with it exactly (no tolerance, ±0 distinguished).
+  Number kinds: for a value stored without digits `DecodeNumeric` returns Go `int(0)`, otherwise `float64`; the property
+  speaks of "the decoded number", so the theorems read an `int` result as the float64 of the same value
+  (`Spec.numAsF64`); model and implementation are compared WITH kinds (families numeric_raw / jsonb_raw).
+  Finite values beyond the double range (|value| ≥ ~1.8·10³⁰⁸; needs weight ≥ 77, outside the quantifier's −64..63)
+  come out as ±Inf, as IEEE-754 rounding and ParseFloat prescribe: `C05_overflow_is_inf`.
 -/
 import PgVerif.Proofs.Numeric
+import PgVerif.Proofs.NumericValue
+import PgVerif.Proofs.JsonbGo
 namespace PgVerif.Props.C05
 open PgVerif PgVerif.Model PgVerif.Proofs
 
-/-- For every well-formed numeric — NaN, +Infinity, −Infinity, or a finite value with any sign, any
-weight in int16, any display scale and any number of base-10000 digits (leading/trailing zero groups
-included) — and for each header form that can hold it (short: −64 ≤ weight ≤ 63 and dscale ≤ 63; long:
-always), decoding PostgreSQL's payload yields that value exactly: the three special values as such,
-a finite value as sign · Σ dᵢ·10000^(k−1−i) · 10000^(weight−k+1), and a value without digits as 0. -/
-theorem C05_value (n : Spec.Numeric) (h : n.WF) (form : Spec.HeaderForm) (hf : form.admits n) :
+/-- **Exact level.**  For every well-formed numeric — NaN, +Infinity, −Infinity, or a finite value with any sign, any
+weight in int16, any display scale and any number of base-10000 digits (leading/trailing zero groups included) — and
+for each header form that can hold it (short: −64 ≤ weight ≤ 63 and dscale ≤ 63; long: always), decoding PostgreSQL's
+payload yields that value exactly: the three special values as such; for a finite value the decimal text handed to
+ParseFloat, read by `Spec.readDecimal`, denotes sign · Σ dᵢ·10000^(k−1−i) · 10^(4·(weight−k+1)); a value without
+digits is 0. -/
+theorem C05_exact (n : Spec.Numeric) (h : n.WF) (form : Spec.HeaderForm) (hf : form.admits n) :
     (decodeNumeric (Spec.encNumeric form n)).map NumRes.toView = .ok (some n.view) :=
   decodeNumeric_enc n h form hf
 
-/-- The same value is obtained when the numeric sits inside a JSONB document, i.e. behind its own
-4-byte varlena header (how PostgreSQL stores every numeric in jsonb), through `decodeJNumeric`. -/
-theorem C05_jsonb (n : Spec.Numeric) (h : n.WF) (form : Spec.HeaderForm) (hf : form.admits n)
-    (hlen : (Spec.encNumeric form n).length + 4 < 2 ^ 30) :
-    (decodeJNumeric (Spec.varlena4 (Spec.encNumeric form n))).map NumRes.toView = .ok (some n.view) := by
-  rw [decodeJNumeric_varlena4 _ (encNumeric_pos form n) hlen]
-  exact C05_value n h form hf
+/-- **The text itself.**  For digits below 10000 (at least one), any sign and weight, the text `computeNumeric` builds
+— `-` if negative, four characters per digit, `e`, the decimal exponent 4·(weight−k+1) — denotes exactly
+(sign, Σ dᵢ·10000^(k−1−i), 4·(weight−k+1)) in the Spec's reading of decimal texts. -/
+theorem C05_text (digits : List Nat) (w : Int) (neg : Bool) (hd : ∀ d ∈ digits, d < 10000) (hne : digits ≠ []) :
+    computeNumeric digits w neg = .num (numericText digits w neg) ∧
+    Spec.readDecimal (numericText digits w neg) = some (neg, Spec.mantOf digits 0, 4 * (w - digits.length + 1)) := by
+  refine ⟨?_, NumericValue.readDecimal_numericText digits w neg hd hne⟩
+  have hl : (digits.length == 0) = false := by cases digits <;> simp_all
+  simp [computeNumeric, hl, any_ge_false digits hd]
 
-/-- … and behind a 1-byte ("short") varlena header, which the reader also accepts, provided the
-payload has at least 3 bytes.  (A bare 2-byte header word — the value 0 without digits — behind a
-1-byte varlena header is only 3 bytes long and `decodeJNumeric` requires 4; PostgreSQL never writes
-this form inside jsonb.) -/
-theorem C05_jsonb_short_varlena (n : Spec.Numeric) (h : n.WF) (form : Spec.HeaderForm) (hf : form.admits n)
+/-- **The decimal is PostgreSQL's value.**  PostgreSQL defines the value of the digit string d₀…d_{k−1} with weight w as
+Σ dᵢ·10000^(w−i).  Scaled by any power 10^S that makes all exponents non-negative (so that both sides are natural
+numbers), that sum equals mant·10^exp10 for the Spec's decimal mant = Σ dᵢ·10000^(k−1−i), exp10 = 4·(w−k+1). -/
+theorem C05_positional (S : Nat) (digits : List Nat) (w : Int) (h : 0 ≤ 4 * (w - digits.length + 1) + S) :
+    Spec.posValue S w digits = Spec.mantOf digits 0 * 10 ^ (4 * (w - digits.length + 1) + S).toNat :=
+  NumericValue.posValue_eq S digits w h
+
+/-- **The decimal is the rational value.**  For every finite numeric (any sign, weight, digits; no hypothesis) the Spec's
+decimal `view` — the quantity `C05_exact` shows the decoder's text to denote — is, as a rational number, PostgreSQL's value
+sign · Σ dᵢ·10000^(weight−i) (ℚ from Lean's core library). -/
+theorem C05_rational (neg : Bool) (w : Int) (ds : Nat) (digits : List Nat) :
+    (Spec.Numeric.fin neg w ds digits).view.toRat = (Spec.Numeric.fin neg w ds digits).toRat := by
+  show (if digits.isEmpty then Spec.NumView.exact false 0 0
+        else Spec.NumView.exact neg (Spec.mantOf digits 0) (4 * (w - digits.length + 1))).toRat
+      = some ((if neg then -1 else 1) * Spec.ratPositional w digits)
+  rw [NumericValue.ratPositional_eq]
+  cases hd : digits.isEmpty with
+  | true =>
+    have : digits = [] := by simpa using hd
+    subst this
+    simp [Spec.NumView.toRat, Spec.mantOf]
+  | false => simp only [Bool.false_eq_true, if_false, Spec.NumView.toRat]
+
+/-- what a `DecodeNumeric` result is as a number, when its exact reading is `v`: under the ParseFloat contract the Go
+value (an `int` read as the float64 of the same value) is the float64 nearest to `v` -/
+theorem C05_toGo_of_exact (pf : ParseFloat) (hpf : Spec.ParseFloatOK pf) (r : NumRes) (v : Spec.NumView)
+    (h : r.toView = some v) : Spec.numAsF64 (r.toGo pf) = v.toGo :=
+  JsonbGo.num_toGo pf hpf r v h
+
+/-- **C05, value level.**  Let `pf` be a text-to-float64 conversion with ParseFloat's contract (correct rounding of the
+denoted decimal).  For every well-formed numeric and each header form that can hold it, `DecodeNumeric` on PostgreSQL's
+payload returns — as a number — the float64 NEAREST to the stored value (bit for bit, any digit count), `math.NaN()`
+for NaN and ±Inf for ±Infinity. -/
+theorem C05_value (pf : ParseFloat) (hpf : Spec.ParseFloatOK pf) (n : Spec.Numeric) (h : n.WF) (form : Spec.HeaderForm)
+    (hf : form.admits n) :
+    (decodeNumeric (Spec.encNumeric form n)).map (fun r => Spec.numAsF64 (r.toGo pf)) = .ok n.view.toGo := by
+  have hv := C05_exact n h form hf
+  cases hd : decodeNumeric (Spec.encNumeric form n) with
+  | error e => rw [hd] at hv; simp [Except.map] at hv
+  | ok r =>
+    rw [hd] at hv
+    simp only [Except.map, Except.ok.injEq] at hv ⊢
+    exact C05_toGo_of_exact pf hpf r _ hv
+
+/-- The same value is obtained when the numeric sits inside a JSONB document, i.e. behind its own 4-byte varlena header
+(how PostgreSQL stores every numeric in jsonb), through `decodeJNumeric`. -/
+theorem C05_jsonb (pf : ParseFloat) (hpf : Spec.ParseFloatOK pf) (n : Spec.Numeric) (h : n.WF) (form : Spec.HeaderForm)
+    (hf : form.admits n) (hlen : (Spec.encNumeric form n).length + 4 < 2 ^ 30) :
+    (decodeJNumeric (Spec.varlena4 (Spec.encNumeric form n))).map (fun r => Spec.numAsF64 (r.toGo pf)) = .ok n.view.toGo := by
+  rw [decodeJNumeric_varlena4 _ (encNumeric_pos form n) hlen]
+  exact C05_value pf hpf n h form hf
+
+/-- … and behind a 1-byte ("short") varlena header, which the reader also accepts, provided the payload has at least
+3 bytes.  (A bare 2-byte header word — the value 0 without digits — behind a 1-byte varlena header is only 3 bytes long
+and `decodeJNumeric` requires 4; PostgreSQL never writes this form inside jsonb.) -/
+theorem C05_jsonb_short_varlena (pf : ParseFloat) (hpf : Spec.ParseFloatOK pf) (n : Spec.Numeric) (h : n.WF)
+    (form : Spec.HeaderForm) (hf : form.admits n)
     (h3 : 3 ≤ (Spec.encNumeric form n).length) (hlen : (Spec.encNumeric form n).length + 1 ≤ 127) :
-    (decodeJNumeric (Spec.varlena1 (Spec.encNumeric form n))).map NumRes.toView = .ok (some n.view) := by
+    (decodeJNumeric (Spec.varlena1 (Spec.encNumeric form n))).map (fun r => Spec.numAsF64 (r.toGo pf)) = .ok n.view.toGo := by
   rw [decodeJNumeric_varlena1 _ h3 hlen]
-  exact C05_value n h form hf
+  exact C05_value pf hpf n h form hf
+
+/-- … and when it is stored in a column: `DecodeType(data, 1700)` is `DecodeNumeric(data)` behind the empty-input test
+(a numeric payload is never empty). -/
+theorem C05_column (pf : ParseFloat) (hpf : Spec.ParseFloatOK pf) (n : Spec.Numeric) (h : n.WF) (form : Spec.HeaderForm)
+    (hf : form.admits n) :
+    (decodeTypeNumeric (Spec.encNumeric form n)).map (fun r => Spec.numAsF64 (r.toGo pf)) = .ok n.view.toGo := by
+  unfold decodeTypeNumeric
+  have hpos := encNumeric_pos form n
+  have : ((Spec.encNumeric form n).length == 0) = false := by rw [beq_eq_false_iff_ne]; omega
+  rw [this]
+  exact C05_value pf hpf n h form hf
+
+/-- the ParseFloat contract is satisfiable: the executable reference conversion has it (it is the driver's instance of
+`pf`, compared bit for bit with the real strconv.ParseFloat on every generated case) -/
+theorem C05_contract_satisfiable : Spec.ParseFloatOK Spec.parseFloatRef := Spec.parseFloatRef_ok
 
 /-- All 65 536 header words (no enumeration: quotient/remainder reasoning on the masks): whatever
 follows the header word, `DecodeNumeric` takes the branch PostgreSQL's own macros select for that
@@ -79,8 +165,22 @@ example : (Spec.Numeric.fin false (-1) 1 [5000]).WF ∧ Spec.HeaderForm.short.ad
     (Spec.Numeric.fin true 0 2 [12, 3400]).WF ∧ Spec.HeaderForm.long.admits (.fin true 0 2 [12, 3400]) ∧
     Spec.Numeric.nan.WF := by decide
 
-/-- … and the decoder's answer on the first is the exact value 5000·10000⁻¹ -/
-example : decodeNumeric (Spec.encNumeric .short (.fin false (-1) 1 [5000])) = .ok (.num false 5000 (-1)) := by
-  rfl
+/-- … and the decoder's answer on the first is the text `5000e-4`, which denotes 5000·10⁻⁴ = 0.5, whose nearest double
+is 0x3FE0000000000000 -/
+example : decodeNumeric (Spec.encNumeric .short (.fin false (-1) 1 [5000])) = .ok (.num (Txt.asc "5000e-4")) ∧
+    Spec.readDecimal (Txt.asc "5000e-4") = some (false, 5000, -4) ∧
+    Spec.parseFloatRef (Txt.asc "5000e-4") = 0x3FE0000000000000 := by
+  exact ⟨rfl, by decide +kernel, by decide +kernel⟩
+
+/-- the float64 JSON caveat made concrete: 9007199254740993 = 2⁵³ + 1 (digits 9007 1992 5474 0993, weight 3) is returned
+as 9007199254740992: it IS the nearest double -/
+example : (Spec.Numeric.fin false 3 0 [9007, 1992, 5474, 993]).view.bits = 0x4340000000000000 := by decide +kernel
+
+/-- Finite values beyond the double range come out as +Inf (IEEE-754 overflow; ParseFloat's range error is discarded by
+the code): the long-form numeric 10⁴⁰⁰ (weight 100, digit 1).  Indistinguishable from numeric 'Infinity' in the result;
+outside the quantified weights (a double overflows from weight 77 on). -/
+theorem C05_overflow_is_inf :
+    (Spec.Numeric.fin false 100 0 [1]).WF ∧ (Spec.Numeric.fin false 100 0 [1]).view.bits = 0x7FF0000000000000 := by
+  exact ⟨by decide, by decide +kernel⟩
 
 end PgVerif.Props.C05
